@@ -687,6 +687,17 @@ pub fn delimited_family() -> Vec<Spec> {
     ]
 }
 
+/// Failures in a loop or join state that is *not* an inlined single-predecessor state, before any
+/// accepting state was passed (a direct failure, not a rewind), with text after it that the
+/// abandoned lexeme could have continued with.
+pub fn cold_loop_family() -> Vec<Spec> {
+    vec![
+        Spec::single(vec![ret(cat(cat(ch('a'), star(st("bc"))), ch('x'))), ret(ch('b')), ret(ch('c')), ret(ch('x'))], "cold_loop"),
+        Spec::single(vec![ret(cat(cat(alt(st("ab"), ch('b')), star(ch('c'))), ch('x'))), ret(ch('c')), ret(ch('x'))], "cold_loop"),
+        Spec::single(vec![ret(cat(cat(ch('a'), plus(alt(ch('b'), st("cb")))), ch('x'))), ret(plus(ch('x'))), ret(ch('b'))], "cold_loop"),
+    ]
+}
+
 /// A diamond: two paths (one through an accepting state) join and continue for several steps.
 pub fn diamond_family() -> Vec<Spec> {
     let mut out = vec![];
@@ -1068,6 +1079,8 @@ fn groups_core(prop: &str, tier: &str) -> Vec<Group> {
             specs.extend(eoi_family().into_iter().filter(|s| s.sets.len() > 1));
             // the quoted case: Init{'a','s'->switch R} R{'b'} on "sxaab"
             specs.push(Spec::multi(vec![vec![ret(ch('a')), rule(ch('s'), Kind::Act(d_switch(1)))], vec![ret(ch('b'))]], "recovery_quoted"));
+            // direct failures in loop / join states that no accepting state precedes
+            specs.extend(cold_loop_family());
             // a context-only lexeme failing in a second rule set (also right before the end of input, with `$` in Init)
             let cx = |re: Re, c: Re| Rule { re, ctx: Some(c), kind: Kind::Act(D_RETURN) };
             specs.push(Spec::multi(vec![vec![rule(ch('c'), Kind::Act(d_switch_return(1))), ret(Re::Eoi), ret(ch('b'))], vec![cx(ch('a'), ch('b')), rule(ch('c'), Kind::Act(d_switch_return(0)))]], "recovery_ctx"));
